@@ -45,6 +45,12 @@ def camera(env):
     pix2 = cloud(env, 'px', 2, 2); z = T.stack([env.scalar('z0', positive=True, regimes=('generic',))[0], -env.scalar('z1n', positive=True, regimes=('generic',))[0]])
     env.assume('depths are off the camera plane', z.abs() >= tiny)
     env.eq('point2pixel inverts pixel2point (no extrinsics)', geo.point2pixel(geo.pixel2point(pix2, z, K), K), pix2)
+    # integer pixel grids (meshgrid / arange / nonzero): the pixel coordinates are numbers, whatever their dtype
+    ipix = T.tensor([[3, 4], [7, -2]]) if env.sym else T.tensor([[3, 4], [7, -2]], dtype=T.int64)
+    fpix = ipix * (fx * 0 + 1)
+    env.eq('pixel2point on integer-dtype pixels is pixel2point on the same numbers', geo.pixel2point(ipix, z, K), geo.pixel2point(fpix, z, K))
+    env.eq('and it is x = (u - cx) z / fx, y = (v - cy) z / fy, z', geo.pixel2point(ipix, z, K),
+           T.stack([(fpix[:, 0] - cx) * z / fx, (fpix[:, 1] - cy) * z / fy, z], -1))
 
 
 @obligation('C18.knn', functions=[f'{GEO}:knn'], max_paths=256, timeout=300)
